@@ -112,6 +112,29 @@ VERUS_UNITS = {
              'ReactorType::ComponentMutation(t) => (c_component(st.0, EntityReactionType::Insertion(t), id), st.1),', 'revoke_reactor'),
         ],
     },
+    'triggers': {
+        'template': 'triggers.rs.tpl',
+        'owners': [
+            (r'\w+Trigger::reactor_type$', ['C01', 'C06']),
+            (r'\w+Trigger::register$', ['C01', 'C07']),
+            (r'DespawnTrigger::register$', ['C18', 'C08']),
+            (r'register_(insertion|mutation|removal|any_entity_event|resource_mutation|broadcast)_reactor$', ['C01', 'C07']),
+            (r'register_entity_reactor$', ['C01', 'C07', 'C18']),
+            (r'track_removals$', ['C08']),
+        ],
+        'negctl': [
+            ('ensures r == ReactorType::EntityMutation(self.0, type_id_spec::<C>()),', 'ensures r == ReactorType::EntityInsertion(self.0, type_id_spec::<C>()),', 'EntityMutationTrigger::reactor_type'),
+            ('ensures one_syscall((*old(commands)).log(), (*final(commands)).log(), register_broadcast_reactor::<E>, *handle),', 'ensures one_syscall((*old(commands)).log(), (*final(commands)).log(), register_any_entity_event_reactor::<E>, *handle),', 'BroadcastTrigger::register'),
+        ],
+    },
+    'accessors': {
+        'template': 'accessors.rs.tpl',
+        'owners': [(r'React::(get|get_mut|get_noreact|set_if_neq|take)$', ['C14']), (r'ReactResInner::(new|get_mut|get_noreact|set_if_neq|take)$', ['C14'])],
+        'negctl': [
+            ('new.eq_spec(&old(self).component) ==> (r is None && final(self).component == old(self).component && (*final(c)).log() == (*old(c)).log()),',
+             'new.eq_spec(&old(self).component) ==> (r is None && final(self).component == old(self).component && (*final(c)).log().len() == (*old(c)).log().len() + 1),', 'React::set_if_neq'),
+        ],
+    },
     'lemmas': {
         'template': 'lemmas.rs.tpl',
         'owners': [
@@ -179,6 +202,18 @@ PROPS = {
         text='Verus proves on the verbatim revoke_reactor / revoke_entity_reactor, for tokens of ANY length, that every element of the token is processed, in order, by exactly the revocation its kind names (right table, right key, right reaction type, the token\'s id), entity-scoped elements being skipped - not aborting the walk - when the entity is gone. The per-table revocations assumed there are discharged by Kani on the real functions for lists of length 0..3 (all ids symbolic): revoke_X removes exactly the first entry of the id from the named list, keeps the others in order, leaves sibling lists / other keys untouched, and is a no-op for an absent id or key; EntityReactors::remove deletes exactly the (type, id) matches. Lemma L3 (Verus): over any history on one key, the number of live entries of an id is registrations minus effective revocations, other ids unaffected.',
         note=ENVNOTE + '; the assumed effects of the callees in unit `revoke` are uninterpreted functions - their meaning is fixed by the Kani contracts, the correspondence is by review',
         explanation='token walk proved unbounded (Verus, verbatim); per-table removal bounded L<=3 (Kani, real code); history lemma L3'),
+    'C07': dict(category='other', design_ref='DESIGN.md 5/C07 + 9.5',
+        text='Handle-balance contracts on the real code: ReactorMode::prepare gives a persistent reactor a plain handle (never ref-counted, hence never collected) and every other mode a signal for exactly the reactor\'s entity (Verus, verbatim); each of the 11 trigger types registers exactly ONE clone of the handle per trigger into the table its reactor_type() names, none for a despawn trigger on a dead entity, and register_entity_reactor stores none when the entity is gone (Verus, verbatim, generic); register_* store exactly the handle they are given (Verus, unbounded); revoke_* / EntityReactors::remove drop exactly the matching entries and no neighbour (Kani, L<=3); DespawnAccessTracker holds the in-flight handle from start to end and end drops it (Verus); the signal itself is an exact reference count: the reactor\'s id is sent to the despawner exactly once, at the drop of the last clone (Kani on real std::sync::Arc + the assumed channel, 1..3 clones; lemma L4). Level other: garbage_collect_entities, schedule_despawn_reactions and the runner\'s collection points are NOT discharged (CBMC cost / outside Verus\' subset), so "despawned by the first collection after the last handle disappears" is carried only up to the despawn request.',
+        note=ENVNOTE + '; Arc/channel: sequential semantics; garbage collection itself assumed',
+        explanation='one clone per effective registration, one drop per revocation, in-flight handle dropped at end, exact ref-count of the signal; collection not covered'),
+    'C10': dict(category='other', design_ref='DESIGN.md 5/C10 + 9.5',
+        text='Kani discharges on the real AutoDespawner / AutoDespawnSignal (real std::sync::Arc, assumed FIFO channel) that for 1..3 clones dropped one by one, with the request channel polled after every drop, the prepared entity is requested for despawn exactly once, at the drop of the LAST clone, never while a clone exists, and with the right entity id (symbolic). Lemma L4 (Verus) generalises the count to k clones over the assumed Arc contract. NOT discharged: garbage_collect_entities (drain loop, despawn_recursive of descendants, skipping entities already gone) - a World + Arc + channel harness exceeds the cost rule and the function is outside Verus\' subset (closure effects); threads are not verified at all (Kani has no thread support): every concurrent history of drops is ASSUMED equivalent to a sequential one (Arc\'s atomic count, linearizable channel).',
+        note=ENVNOTE + '; threads not verified; garbage_collect_entities not under contract',
+        explanation='exact reference count up to the despawn request (Kani, real Arc, <=3 clones; lemma L4); collection and concurrency assumed'),
+    'C16': dict(category='other', design_ref='DESIGN.md 5/C16 + 9.5',
+        text='Function-level contracts: EntityLocal::{entity,get,get_mut} expose exactly the entity that caused the run and the local data attached to it, writes land on that data, and every accessor panics outside a run of the reactor\'s own system (Kani, loop-free, value symbolic); the run\'s source comes from EntityReactionAccessTracker whose start claims the oldest entry parked for that system (Kani K.tracker.entity, lists L<=3/5; lemma L1); cleanup_reactor_data(id, e) removes the local data iff e\'s registration list holds no entry of reactor id any more and leaves entities without list alone (Kani, lists L<=2, all contents); EntityReactors::{insert,remove,iter_reactors} (Kani); ReactorType::get_entity and ReactorMode::prepare (a world reactor is Persistent => never ref-counted => never collected) (Verus, verbatim). Not covered: EntityReactor::add/remove (command pairs queued through ReactCommands), RevokeToken::iter_unique_entities, and "as last modified by earlier runs" across trees (runner).',
+        note=ENVNOTE + '; Query::verif_single stands for a query over one entity',
+        explanation='EntityLocal exposure and cleanup_reactor_data bounded/complete@shape (Kani); supporting contracts proved (Verus); add/remove command pairs and runner not covered'),
     'C12': dict(category='other', design_ref='DESIGN.md 5/C12',
         text='Verus proves on the verbatim text of command_queue.rs (all lengths) that the postponed-command buffer is FIFO (push appends, remove hands over everything in order, append concatenates, pop_front = head) and, with lemma L1 (unbounded, any interleaving), that parked event metadata is a per-system FIFO given the contract of *AccessTracker::start; that contract (claims the OLDEST entry of the system, the other entries keep their ORDER) is discharged by Kani on the real start() of all four trackers for every content of parked lists of length 0..3 (quick) / 0..5 (thorough). Level other, not proof: start() is complete per list length only, and the runner replaying its buffer front-to-back is not under contract.',
         note=ENVNOTE + '; Vec/VecDeque specs of vstd; core::mem::replace assume_specification; syscommand_runner (replay order of the buffer) not covered',
@@ -188,7 +223,7 @@ PROPS = {
         note=ENVNOTE + '; stub System = assumed contract of bevy System; Box<dyn FnMut> callbacks are opaque values in the Verus unit',
         explanation='storage take/insert proved (Verus); one initialisation and instance identity over bounded run sequences (Kani); runner not covered'),
     'C14': dict(category='other', design_ref='DESIGN.md 5/C14',
-        text='Kani, loop-free over the full u32 value domain on the real accessors: React::{get,get_noreact} and the ReactResMut read paths queue nothing; React::get_mut / ReactResMut::get_mut queue exactly one trigger command per call; set_if_neq(new): new == old => None, value unchanged, nothing queued; new != old => Some(old), value stored, exactly one trigger. The trigger itself: schedule_mutation_reaction / schedule_insertion_reaction queue exactly one command per matching registration for THIS entity and component type (bounded shapes), and schedule_insertion_reaction queues nothing for an entity that does not carry the component (despawned before apply). Level other: value-level clauses are complete per instantiation; ReactiveMut (query-level wrappers) and ReactCommands::insert\'s command pair are not discharged (CBMC cost).',
+        text='Verus proves on the verbatim text, generically in the component / resource type: React::{get,get_noreact,take} and ReactResInner::{get_noreact,take} queue nothing; get_mut queues exactly one trigger (for the owning entity); set_if_neq(new) stores, returns the old value and queues one trigger iff new != old by the type\'s PartialEq, and otherwise changes and queues nothing. Kani, loop-free over the full u32 value domain on the real accessors against the stub Commands (counting queued commands): React::{get,get_noreact} and the ReactResMut read paths queue nothing; React::get_mut / ReactResMut::get_mut queue exactly one trigger command per call; set_if_neq(new): new == old => None, value unchanged, nothing queued; new != old => Some(old), value stored, exactly one trigger. The trigger itself: schedule_mutation_reaction / schedule_insertion_reaction queue exactly one command per matching registration for THIS entity and component type (bounded shapes), and schedule_insertion_reaction queues nothing for an entity that does not carry the component (despawned before apply). Level other: value-level clauses are complete per instantiation; ReactiveMut (query-level wrappers) and ReactCommands::insert\'s command pair are not discharged (CBMC cost).',
         note=ENVNOTE + '; component/resource instantiated at a u32 newtype',
         explanation='accessor clauses complete@shape (Kani, loop-free, full value domain); dispatch of the trigger bounded (Kani)'),
     'C18': dict(category='other', design_ref='DESIGN.md 5/C18',
@@ -196,8 +231,8 @@ PROPS = {
         note=ENVNOTE,
         explanation='dead-target paths of revoke walk, payload cleanup and abort proved by Verus; no-panic/no-effect harnesses by Kani; runner not covered'),
 }
-PENDING = {k: 'obligations for this property are not built yet (build in progress); not claimed until its check exists and passes on the unchanged tree'
-           for k in ['C07','C08','C10','C16','C17']}
+PENDING = {k: 'not claimed in this build: see DESIGN.md 9.5'
+           for k in ['C08','C17']}
 for k, v in NA.items():
     assert k not in PROPS
 
